@@ -56,7 +56,8 @@ func executeBytecodePromise(thread *Thread, queue chan *Promise, task *Promise) 
 
 	switch thread.state {
 	case awaitState:
-		awaitedPromise := (*Promise)(thread.peek().Pointer())
+		// the awaited promise is what the suspended frame left on the stack of the worker
+		awaitedPromise := (*Promise)(thread.popGet().Pointer())
 		awaitedPromise.RegisterContinuationUnsafe(task)
 
 		// promise has been locked in the VM
